@@ -1,6 +1,14 @@
 import Obao.Model.GF256
+import Obao.Model.Threshold
+import Obao.Proofs.GF256Split
+import Obao.Proofs.Threshold
 /-!
-C20 — property theorems (statements only; helper lemmas live in `Obao/Proofs`).
+C20 — property theorems (statements only; helper lemmas live in `Obao/Proofs/GF256*.lean`, `Proofs/Threshold.lean`).
+
+Vocabulary from the proof modules: `GF` = the 256-element carrier `{val : Nat // val < 256}` (a structure),
+`GF.ofNat n = ⟨n % 256⟩`, `Bytes l = ∀ x ∈ l, x < 256`, `polyOf cs` = the `Polynomial GF` with coefficient list
+`cs` (lowest degree first), `share secret coeffs x` = one element of `split secret xs coeffs` (`split_eq`),
+`CoeffsWF k coeffs` = every coefficient list has `k` byte entries.
 -/
 namespace C20
 open Obao.GF256
@@ -11,7 +19,6 @@ theorem split_rejects (len parts thr : Int) :
   unfold splitCheck
   repeat' split
   all_goals simp_all
-  all_goals omega
 
 /-- `Combine` rejects fewer than two parts. -/
 theorem combine_rejects_few (parts : List (List Nat)) (h : parts.length < 2) :
@@ -30,5 +37,289 @@ theorem combine_rejects_duplicate (p0 p1 : List Nat) (rest : List (List Nat))
   have h2 : (p1 :: rest).any (fun p => p.length != p0.length) = false := by
     rw [List.any_eq_false]; intro p hp; simp [heq p hp]
   simp only [h1, h2, hdup, if_false, if_true, Bool.false_eq_true]
+
+/-! ### 1. the arithmetic is a field -/
+
+/-- **gf256_field.** There is a `Field` structure on the 256-element carrier whose `*`, `⁻¹`, `/`, `+`, `-`,
+`0`, `1` are the model's `mult`, `inverse`, `div`, `add`, `add`, `0`, `1` (so `0⁻¹ = 0 = inverse 0`), and the
+carrier is exactly the bytes. (The instance is `GF.instField`; its laws are proved from closure, xor-bilinearity
+of `mult`, and the 8-element bit basis — see `Proofs/GF256Arith.lean`.) -/
+theorem gf256_field :
+    ∃ F : Field GF,
+      (∀ a b : GF, (F.mul a b).val = mult a.val b.val) ∧
+      (∀ a : GF, (F.inv a).val = inverse a.val) ∧
+      (∀ a b : GF, (F.div a b).val = Obao.GF256.div a.val b.val) ∧
+      (∀ a b : GF, (F.add a b).val = add a.val b.val) ∧
+      (∀ a b : GF, (F.sub a b).val = add a.val b.val) ∧
+      F.zero.val = 0 ∧ F.one.val = 1 ∧
+      (∀ n < 256, ∃ a : GF, a.val = n) ∧ (∀ a b : GF, a.val = b.val → a = b) :=
+  ⟨GF.instField, fun _ _ => rfl, fun _ => rfl, fun _ _ => rfl, fun _ _ => rfl, fun _ _ => rfl, rfl, rfl,
+    fun n h => ⟨⟨n, h⟩, rfl⟩, fun _ _ h => GF.ext h⟩
+
+/-- The field laws read back on the model's `Nat` functions (bytes in, bytes out): the statements a reader of
+`shamir.go` would write down. -/
+theorem gf256_laws (a b c : Nat) (ha : a < 256) (hb : b < 256) (hc : c < 256) :
+    mult a b < 256 ∧ inverse a < 256 ∧
+    mult a b = mult b a ∧ mult (mult a b) c = mult a (mult b c) ∧ mult 1 a = a ∧
+    mult a (add b c) = add (mult a b) (mult a c) ∧
+    (a ≠ 0 → mult a (inverse a) = 1) ∧ inverse 0 = 0 ∧
+    (b ≠ 0 → div? a b = some (mult a (inverse b))) ∧ div? a 0 = none :=
+  ⟨mult_lt _ ha, inverse_lt ha, mult_comm ha hb, mult_assoc ha hb hc, mult_one_left ha,
+    mult_xor_right _ _ ha, mult_inverse ha, inverse_zero,
+    fun h => by rw [div?_eq, if_neg h, div_eq], rfl⟩
+
+/-! ### 2. Horner evaluation and Lagrange interpolation are the textbook ones -/
+
+/-- **evaluate_eq_polynomial_eval.** The model's Horner `evaluate` on a byte list is `Polynomial.eval` of the
+polynomial with those coefficients over the field above; that polynomial has degree below the list length and
+its `i`-th coefficient is the `i`-th list entry. -/
+theorem evaluate_eq_polynomial_eval (cs : List Nat) (x : Nat) (hcs : Bytes cs) (hx : x < 256) :
+    evaluate cs x = ((polyOf (cs.map GF.ofNat)).eval (GF.ofNat x)).val ∧
+    (polyOf (cs.map GF.ofNat)).degree < cs.length ∧
+    ∀ i, ((polyOf (cs.map GF.ofNat)).coeff i).val = cs.getD i 0 := by
+  refine ⟨evaluate_eq_eval hcs hx, by simpa using degree_polyOf_lt (cs.map GF.ofNat), fun i => ?_⟩
+  rw [coeff_polyOf]
+  by_cases hi : i < cs.length
+  · simp [List.getD_eq_getElem?_getD, hi, GF.ofNat_val (hcs _ (List.getElem_mem hi))]
+  · simp [List.getD_eq_getElem?_getD, hi]
+
+/-- **interpolate_eq_lagrange.** Over distinct byte nodes the model's `interpolatePolynomial xs ys x` is the value
+at `x` of Mathlib's `Lagrange.interpolate` through the points `(xs[i], ys[i])`. -/
+theorem interpolate_eq_lagrange (xs ys : List Nat) (x : Nat) (hxs : Bytes xs) (hys : Bytes ys) (hx : x < 256)
+    (hnd : xs.Nodup) (hlen : ys.length = xs.length) :
+    interpolate xs ys x =
+      ((Lagrange.interpolate (xs.map GF.ofNat).toFinset id
+          (fun a => (ys.map GF.ofNat).getD ((xs.map GF.ofNat).idxOf a) 0)).eval (GF.ofNat x)).val := by
+  have := interpolate_eq_lagrange_lookup (xs.map GF.ofNat) (ys.map GF.ofNat) (GF.ofNat x)
+    (nodup_map_ofNat hxs hnd) (by simp [hlen])
+  rwa [map_val_ofNat hxs, map_val_ofNat hys, GF.ofNat_val hx] at this
+
+/-! ### 3. at the threshold: reconstruction -/
+
+/-- **combine_split.** For every non-empty byte secret, every threshold `t ≥ 2`, every table of `t-1` random
+byte coefficients per secret byte, every list `xs` of distinct byte x-coordinates: every collection `parts` of
+at least `t` pairwise different shares of `split secret xs coeffs`, in any order, combines to exactly the secret.
+(No bound on the secret length or on `n = xs.length`; `xs ≠ 0` is not needed here.) -/
+theorem combine_split (secret xs : List Nat) (coeffs : List (List Nat)) (t : Nat) (parts : List (List Nat))
+    (hsec : Bytes secret) (hne : secret ≠ []) (ht2 : 2 ≤ t)
+    (hclen : coeffs.length = secret.length) (hc : CoeffsWF (t - 1) coeffs)
+    (hxs : Bytes xs) (hpn : parts.Nodup) (hsub : ∀ p ∈ parts, p ∈ split secret xs coeffs)
+    (ht : t ≤ parts.length) :
+    combine parts = .ok secret :=
+  combine_of_subset hsec hne ht2 hclen hc hxs hpn hsub ht
+
+/-- the same with "sub-list in any order" spelled `List.Subperm` (here the x-coordinates must be distinct for
+the shares to be pairwise different) -/
+theorem combine_split_subperm (secret xs : List Nat) (coeffs : List (List Nat)) (t : Nat) (parts : List (List Nat))
+    (hsec : Bytes secret) (hne : secret ≠ []) (ht2 : 2 ≤ t)
+    (hclen : coeffs.length = secret.length) (hc : CoeffsWF (t - 1) coeffs)
+    (hxs : Bytes xs) (hnd : xs.Nodup) (hsub : parts.Subperm (split secret xs coeffs))
+    (ht : t ≤ parts.length) :
+    combine parts = .ok secret := by
+  have hsn : (split secret xs coeffs).Nodup := by
+    rw [split_eq]
+    refine List.Nodup.map_on ?_ hnd
+    intro x _ y _ h
+    have := congrArg (fun p => p.getD secret.length 0) h
+    simpa only [share_getD_last hclen] using this
+  obtain ⟨l, hl, hls⟩ := hsub
+  have hpn : parts.Nodup := hl.nodup_iff.1 (hls.nodup hsn)
+  exact combine_of_subset hsec hne ht2 hclen hc hxs hpn (fun p hp => hls.subset (hl.mem_iff.2 hp)) ht
+
+example : combine ((split [66, 23] [1, 2, 3] [[5], [9]]).take 2) = .ok [66, 23] := by decide
+example : combine [(split [66, 23] [1, 2, 3] [[5], [9]])[2], (split [66, 23] [1, 2, 3] [[5], [9]])[0]]
+    = .ok [66, 23] := by decide
+example : Bytes [66, 23] ∧ CoeffsWF (2 - 1) [[5], [9]] ∧ [1, 2, 3].Nodup := by
+  refine ⟨by unfold Bytes; decide, ?_, by decide⟩
+  intro c hc
+  simp only [List.mem_cons, List.not_mem_nil, or_false] at hc
+  rcases hc with rfl | rfl <;> exact ⟨rfl, by unfold Bytes; decide⟩
+
+/-! ### 4. below the threshold: nothing -/
+
+/-- **below_threshold_independent.** For every list of `k = t-1` distinct non-zero byte x-coordinates, every
+vector of `k` observed y-bytes and **every** candidate secret byte `s` there is exactly one vector of `k` byte
+coefficients that produces those observations: for each fixed secret the map coefficients ↦ observed shares is a
+bijection `256^k → 256^k`. Hence with uniformly random coefficients the joint distribution of any `t-1` shares is
+the same (uniform) for all secrets — the probabilistic reading is this one counting step. -/
+theorem below_threshold_independent (xs ys : List Nat) (s : Nat) (hxs : Bytes xs) (hnd : xs.Nodup)
+    (hnz : ∀ x ∈ xs, x ≠ 0) (hys : Bytes ys) (hlen : ys.length = xs.length) (hs : s < 256) :
+    ∃! cs : List Nat, cs.length = xs.length ∧ Bytes cs ∧ xs.map (evaluate (s :: cs)) = ys :=
+  existsUnique_coeffs_nat hxs hnd hnz hys hlen hs
+
+/-- **below_threshold_consistent** (whole secrets). Take any split with threshold `t = k+1` (`k` coefficients per
+byte) and look at the `k` shares at distinct non-zero x-coordinates `xs`. For *every* candidate secret of the same
+length there is exactly one well-formed coefficient table that makes `Split` produce exactly the same `k` shares:
+fewer than `t` shares are consistent with every possible secret, each equally often. -/
+theorem below_threshold_consistent (xs secret secret' : List Nat) (coeffs : List (List Nat))
+    (hxs : Bytes xs) (hnd : xs.Nodup) (hnz : ∀ x ∈ xs, x ≠ 0)
+    (hb' : Bytes secret') (hb : Bytes secret) (hl : secret'.length = secret.length)
+    (hclen : coeffs.length = secret.length) (hc : CoeffsWF xs.length coeffs) :
+    ∃! coeffs' : List (List Nat), coeffs'.length = secret'.length ∧ CoeffsWF xs.length coeffs' ∧
+      split secret' xs coeffs' = split secret xs coeffs :=
+  split_consistent hxs hnd hnz secret' secret coeffs hb' hb hl hclen hc
+
+/-- the hypotheses are satisfiable; e.g. two observed shares of a threshold-3 split and the candidate byte 77 -/
+example : ∃! cs : List Nat, cs.length = 2 ∧ Bytes cs ∧ [3, 9].map (evaluate (77 :: cs)) = [1, 2] :=
+  below_threshold_independent [3, 9] [1, 2] 77 (by decide) (by decide) (by decide) (by decide) rfl (by decide)
+
+/-- the non-zero hypothesis is necessary: a share at `x = 0` *is* the secret byte -/
+example : ∀ s c : Nat, s < 256 → c < 256 → evaluate [s, c] 0 = s :=
+  fun s c hs hc => evaluate_at_zero hs (by intro v hv; simp at hv; omega)
+example : (split [66] [7] [[5]] = split [200] [7] [[225]]) := by decide
+
+/-! ### 5. x-coordinates and `Combine`'s input checks -/
+
+/-- **xs_distinct_nonzero.** Whatever permutation of `1..255` the Fisher–Yates shuffle produces, its first `n`
+entries are pairwise distinct, non-zero bytes (and there are `min n 255` of them). -/
+theorem xs_distinct_nonzero (l : List Nat) (n : Nat) (hp : l.Perm (List.range' 1 255)) :
+    (l.take n).Nodup ∧ (∀ x ∈ l.take n, x ≠ 0 ∧ x < 256) ∧ (l.take n).length = min n 255 := by
+  have hnd : l.Nodup := hp.nodup_iff.2 (List.nodup_range' (step := 1) (by omega))
+  refine ⟨hnd.sublist (List.take_sublist n l), ?_, ?_⟩
+  · intro x hx
+    have := hp.mem_iff.1 (List.mem_of_mem_take hx)
+    rw [List.mem_range'_1] at this
+    omega
+  · rw [List.length_take, hp.length_eq, List.length_range']
+
+example : (List.range' 1 255).Perm (List.range' 1 255) := .refl _
+example : [3, 1, 2].Perm (List.range' 1 3) := by decide
+
+/-- **combine_rejects.** `Combine` classifies every input: fewer than two parts; first part shorter than 2;
+some part of a different length; a repeated x tag — and accepts exactly the rest, returning `len-1` bytes. -/
+theorem combine_rejects (parts : List (List Nat)) :
+    (parts.length < 2 → combine parts = .error .tooFew) ∧
+    ∀ p0 p1 rest, parts = p0 :: p1 :: rest →
+      let tags := parts.map fun p => p.getD (p0.length - 1) 0
+      (p0.length < 2 → combine parts = .error .tooShort) ∧
+      (2 ≤ p0.length → (∃ p ∈ p1 :: rest, p.length ≠ p0.length) → combine parts = .error .unequal) ∧
+      (2 ≤ p0.length → (∀ p ∈ p1 :: rest, p.length = p0.length) → ¬ tags.Nodup →
+        combine parts = .error .duplicate) ∧
+      (2 ≤ p0.length → (∀ p ∈ p1 :: rest, p.length = p0.length) → tags.Nodup →
+        ∃ s, combine parts = .ok s ∧ s.length = p0.length - 1) := by
+  refine ⟨combine_rejects_few parts, ?_⟩
+  rintro p0 p1 rest rfl
+  intro tags
+  rw [combine_cons_cons]
+  refine ⟨fun h => by simp [h], fun h2 hne => ?_, fun h2 heq hd => ?_, fun h2 heq hd => ?_⟩
+  · have h1 : ¬ p0.length < 2 := by omega
+    have : (p1 :: rest).any (fun p => p.length != p0.length) = true := by
+      obtain ⟨p, hp, hpl⟩ := hne
+      exact List.any_eq_true.2 ⟨p, hp, by simpa using hpl⟩
+    simp only [h1, this, if_true, if_false]
+  · have h1 : ¬ p0.length < 2 := by omega
+    have h3 : (p1 :: rest).any (fun p => p.length != p0.length) = false := by
+      rw [List.any_eq_false]; intro p hp; simp [heq p hp]
+    have h4 := (hasDup_eq_true_iff tags).2 hd
+    simp only [h1, h3, if_false, Bool.false_eq_true]
+    rw [if_pos h4]
+  · have h1 : ¬ p0.length < 2 := by omega
+    have h3 : (p1 :: rest).any (fun p => p.length != p0.length) = false := by
+      rw [List.any_eq_false]; intro p hp; simp [heq p hp]
+    have h4 := (hasDup_eq_false_iff tags).2 hd
+    simp only [h1, h3, if_false, Bool.false_eq_true]
+    rw [if_neg (by rw [h4]; simp)]
+    exact ⟨_, rfl, by simp⟩
+
+/-- **shamir_scheme** (the property in one statement). Let `l` be whatever permutation of `1..255` the shuffle
+produced, `2 ≤ t ≤ n ≤ 255`, `secret` non-empty bytes, `coeffs` the `t-1` random bytes drawn per secret byte, and
+`shares = split secret (l.take n) coeffs` what `Split` returns. Then there are `n` shares, each `len(secret)+1`
+long with pairwise distinct non-zero tags; **every** sub-collection of at least `t` of them (any order) combines to
+the secret; and for **every** choice `ys` of `t-1` of the x-coordinates and **every** other secret of the same
+length exactly one coefficient table makes `Split` produce the very same `t-1` shares. -/
+theorem shamir_scheme (l : List Nat) (hp : l.Perm (List.range' 1 255)) (n t : Nat)
+    (ht2 : 2 ≤ t) (htn : t ≤ n) (hn : n ≤ 255)
+    (secret : List Nat) (coeffs : List (List Nat)) (hsec : Bytes secret) (hne : secret ≠ [])
+    (hclen : coeffs.length = secret.length) (hc : CoeffsWF (t - 1) coeffs) :
+    let shares := split secret (l.take n) coeffs
+    (shares.length = n ∧ (∀ p ∈ shares, p.length = secret.length + 1) ∧
+      (shares.map fun p => p.getD secret.length 0) = l.take n ∧
+      (l.take n).Nodup ∧ ∀ x ∈ l.take n, x ≠ 0 ∧ x < 256) ∧
+    (∀ parts : List (List Nat), parts.Subperm shares → t ≤ parts.length → combine parts = .ok secret) ∧
+    (∀ ys : List Nat, ys.Subperm (l.take n) → ys.length = t - 1 →
+      ∀ secret' : List Nat, Bytes secret' → secret'.length = secret.length →
+        ∃! coeffs' : List (List Nat), coeffs'.length = secret'.length ∧ CoeffsWF (t - 1) coeffs' ∧
+          split secret' ys coeffs' = split secret ys coeffs) := by
+  intro shares
+  obtain ⟨hnd, hx, hlen⟩ := xs_distinct_nonzero l n hp
+  have hxs : Bytes (l.take n) := fun x h => (hx x h).2
+  refine ⟨⟨?_, ?_, ?_, hnd, hx⟩, ?_, ?_⟩
+  · simp only [shares, split_eq, List.length_map, hlen]; omega
+  · intro p h
+    simp only [shares, split_eq] at h
+    obtain ⟨x, _, rfl⟩ := List.mem_map.1 h
+    exact share_length hclen x
+  · simp only [shares, split_eq, List.map_map]
+    conv => rhs; rw [← List.map_id (l.take n)]
+    exact List.map_congr_left fun x _ => share_getD_last hclen x
+  · intro parts hsub ht
+    exact combine_split_subperm secret (l.take n) coeffs t parts hsec hne ht2 hclen hc hxs hnd hsub ht
+  · intro ys hsub hyl secret' hb' hl'
+    obtain ⟨l', hl'p, hl's⟩ := hsub
+    have hynd : ys.Nodup := hl'p.nodup_iff.1 (hl's.nodup hnd)
+    have hymem : ∀ y ∈ ys, y ∈ l.take n := fun y hy => hl's.subset (hl'p.mem_iff.2 hy)
+    have := below_threshold_consistent ys secret secret' coeffs (fun y hy => (hx y (hymem y hy)).2) hynd
+      (fun y hy => (hx y (hymem y hy)).1) hb' hsec hl' hclen (by rw [hyl]; exact hc)
+    rw [hyl] at this
+    exact this
+
+example : combine [[1, 2]] = .error .tooFew := by decide
+example : combine [[1], [2]] = .error .tooShort := by decide
+example : combine [[1, 2], [3, 4, 5]] = .error .unequal := by decide
+example : combine [[1, 7], [3, 7]] = .error .duplicate := by decide
+example : combine [[1, 7], [3, 8]] = .ok [199] := by decide
+
+/-! ### 6. threshold accounting (`seal_manager.go`: `unsealFragment` / `recordUnsealPart` / `getUnsealKey`) -/
+
+open Obao.Threshold in
+/-- **threshold_accounting.** For every configuration and **every** sequence `ks` of submitted parts (any
+values, repetitions, lengths), starting from no recorded parts:
+1. the recorded parts are pairwise distinct, were all submitted, pass the length checks, and (when present) are
+   fewer than the threshold;
+2. every key ever handed out was computed from at least `threshold` pairwise distinct valid submitted parts
+   (`Parts[0]` when the threshold is 1, `shamir.Combine` of them otherwise);
+3. as long as no submission completed an attempt, `progress` is the number of distinct valid parts submitted;
+4. resubmitting a recorded part changes nothing and yields no key;
+5. no submission yields a key while the progress it would reach is below the threshold. -/
+theorem threshold_accounting (cfg : Cfg) (ks : List Part) :
+    let r := run cfg [] ks
+    (r.1.Nodup ∧ (∀ p ∈ r.1, p ∈ ks ∧ Valid cfg p) ∧ (r.1 ≠ [] → (progress r.1 : Int) < cfg.threshold)) ∧
+    (∀ key, Outcome.key key ∈ r.2 →
+      ∃ parts : List Part, parts.Nodup ∧ (∀ p ∈ parts, p ∈ ks ∧ Valid cfg p) ∧
+        cfg.threshold ≤ (parts.length : Int) ∧
+        ((cfg.threshold = 1 ∧ parts.head? = some key) ∨ (cfg.threshold ≠ 1 ∧ combine parts = .ok key))) ∧
+    ((∀ o ∈ r.2, o.completes = false) →
+      ∀ [DecidablePred (Valid cfg)], progress r.1 = (ks.toFinset.filter (Valid cfg)).card) ∧
+    (∀ k ∈ r.1, submit cfg r.1 k = (r.1, .duplicate)) ∧
+    (∀ k, ((progress r.1 : Int) + 1 < cfg.threshold) → ∀ key, (submit cfg r.1 k).2 ≠ .key key) := by
+  intro r
+  have hinv : Inv cfg r.1 := run_inv ks (inv_nil cfg)
+  have hmem : ∀ p ∈ r.1, p ∈ ks := fun p hp => (run_mem (cfg := cfg) ks (st := []) p hp).resolve_left (by simp)
+  refine ⟨⟨hinv.nodup, fun p hp => ⟨hmem p hp, hinv.valid p hp⟩, hinv.below⟩, ?_, ?_, ?_, ?_⟩
+  · intro key hk
+    obtain ⟨parts, hnd, hm, hge, hkey⟩ := run_key_sound ks (inv_nil cfg) key hk
+    exact ⟨parts, hnd, fun p hp => ⟨((hm p hp).2).resolve_left (by simp), (hm p hp).1⟩, hge, hkey⟩
+  · intro hno inst
+    have hchar := run_progress (cfg := cfg) ks (st := []) hno
+    have : r.1.toFinset = ks.toFinset.filter (Valid cfg) := by
+      ext p
+      simp only [List.mem_toFinset, Finset.mem_filter]
+      rw [hchar p]; simp
+    rw [← this, List.toFinset_card_of_nodup hinv.nodup]; rfl
+  · intro k hk
+    exact submit_duplicate (hinv.valid k hk) hk
+  · intro k hlt key
+    apply submit_no_key_below
+    simp only [List.length_append, List.length_singleton, progress] at hlt ⊢
+    omega
+
+open Obao.Threshold in
+/-- the accounting is live: three distinct shares at threshold 3 unseal; a repeated share does not count -/
+example :
+    let cfg : Cfg := ⟨3, 3, 3⟩
+    let sh := split [66, 23] [1, 2, 3, 4] [[5, 7], [9, 11]]
+    (run cfg [] [sh[0], sh[0], sh[1]]).2 = [.pending 1, .duplicate, .pending 2] ∧
+    (run cfg [] [sh[0], sh[0], sh[1], sh[3]]).2 = [.pending 1, .duplicate, .pending 2, .key [66, 23]] := by
+  decide
 
 end C20
